@@ -731,8 +731,12 @@ More3 == <<
   V("static/pow", "ExprBinaryPow", {"scalar"}, "both", L.pow, FALSE, [Left |-> Ch("scalar", L.pow + 1), OpTkn |-> Tk("**"), Right |-> Ch("scalar", L.pow)]),
   V("static/not", "ExprBooleanNot", {"scalar"}, "both", L.not, FALSE, [ExclamationTkn |-> Tk("!"), Expr |-> Ch("scalar", L.not)]),
   V("static/bitnot", "ExprBitwiseNot", {"scalar"}, "both", L.unary, FALSE, [TildaTkn |-> Tk("~"), Expr |-> Ch("scalar", L.unary)]),
-  V("static/uminus", "ExprUnaryMinus", {"scalar"}, "both", L.unary, FALSE, [MinusTkn |-> Tk("-"), Expr |-> Ch("scalar", L.unary)]),
-  V("static/uplus", "ExprUnaryPlus", {"scalar"}, "both", L.unary, FALSE, [PlusTkn |-> Tk("+"), Expr |-> Ch("scalar", L.unary)]),
+  \* PHP 5.6's grammar gives the sign rules of constant expressions no %prec: they take the precedence of binary '+' / '-', so
+  \* "-1 * 2" is -(1 * 2) there and (-1) * 2 from PHP 7 on (where constant expressions are ordinary expressions)
+  V("static/uminus", "ExprUnaryMinus", {"scalar"}, "7g", L.unary, FALSE, [MinusTkn |-> Tk("-"), Expr |-> Ch("scalar", L.unary)]),
+  V("static/uplus", "ExprUnaryPlus", {"scalar"}, "7g", L.unary, FALSE, [PlusTkn |-> Tk("+"), Expr |-> Ch("scalar", L.unary)]),
+  V("static/uminus5", "ExprUnaryMinus", {"scalar"}, "5", L.add, FALSE, [MinusTkn |-> Tk("-"), Expr |-> Ch("scalar", L.add + 1)]),
+  V("static/uplus5", "ExprUnaryPlus", {"scalar"}, "5", L.add, FALSE, [PlusTkn |-> Tk("+"), Expr |-> Ch("scalar", L.add + 1)]),
   V("static/ternary", "ExprTernary", {"scalar"}, "both", L.ternary, FALSE,
     [Cond |-> Ch("scalar", L.ternary), QuestionTkn |-> Tk("?"), IfTrue |-> Ch("scalar", L.ternary), ColonTkn |-> Tk(":"), IfFalse |-> Ch("scalar", L.ternary + 1)]),
   V("static/shortternary", "ExprTernary", {"scalar"}, "both", L.ternary, FALSE,
